@@ -28,6 +28,9 @@ func runC11(w *World, r *Report) {
 	la := NewLockAn(w)
 	hrLockOwnersUsePointerReceivers(w, r, "R1", "lunar/")
 	hrMessageArgsByName(w, r, "R2")
+	hrCfgIdentifiers(w, r, "R2")
+	hrRevertUnmanageFlags(w, r, "R4")
+	hrBodyLengthDecides(w, r, "R6")
 	hrEarlyResponseMessage(w, r, "R2")
 	hrDelayedUnmanageWaitsRetention(w, r, "R4")
 	hrDiagnosisWorkerKey(w, r, "R2")
